@@ -62,6 +62,8 @@ impl OperationControl for Atom {
         matcher: &'a ReMatcher,
         position: usize,
     ) -> Box<dyn Iterator<Item = usize> + 'a> {
+        #[cfg(regexml_verif)]
+        crate::verif::tick();
         let in_ = &matcher.search;
         if (position + self.len) > in_.len() {
             return Box::new(std::iter::empty());
